@@ -119,3 +119,58 @@ pub fn c16_dct_2x2_and_2x1() {
     assert!(close(col[0], (fa + fb) / 2.0, scale) && close(col[1], (fa - fb) / 2.0, scale));
     kani::cover!(a != b && c != d, "non-constant block");
 }
+
+/// 2-D impulse at (ky, kx) of a W x H block through the real 2-D driver (columns, transposition,
+/// rows): every output sample must be amplitude * B_H[ky][y] * B_W[kx][x].
+fn idct_2d_impulse<const W: usize, const H: usize, const WH: usize>(bw: &[[f64; W]; W], bh: &[[f64; H]; H], ky: usize, kx: usize) {
+    let v = amplitude();
+    let mut buf = [0f32; WH];
+    buf[ky * W + kx] = v;
+    {
+        let mut g = MutableSubgrid::from_buf(&mut buf[..], W, H, W);
+        generic_dct_2d(&mut g, false);
+    }
+    let (x, y): (usize, usize) = (kani::any(), kani::any());
+    kani::assume(x < W && y < H);
+    assert!(close(buf[y * W + x], v as f64 * bh[ky][y] * bw[kx][x], (v as f64).abs() * 2.0));
+}
+
+// @prop C16
+// @tier quick
+// @unit jxl_render::vardct::generic::dct::dct_2d (column pass, transposition, row pass) for 4x4 blocks
+// @sym impulse amplitude from the 6-value table; impulse position enumerated over a set that has every row and every column (8 of 16 positions); inspected output sample symbolic
+// @bound 4x4, impulse inputs
+// @oblig output(y, x) = amplitude * B4[ky][y] * B4[kx][x] within 1e-5 relative: the separable definition of the 2-D inverse DCT
+// @outside superpositions, sizes above 8, SIMD paths
+#[kani::proof]
+#[kani::unwind(10)]
+pub fn c16_idct4x4_impulse_responses() {
+    idct_2d_impulse::<4, 4, 16>(&BASIS_4, &BASIS_4, 0, 0);
+    idct_2d_impulse::<4, 4, 16>(&BASIS_4, &BASIS_4, 0, 1);
+    idct_2d_impulse::<4, 4, 16>(&BASIS_4, &BASIS_4, 1, 0);
+    idct_2d_impulse::<4, 4, 16>(&BASIS_4, &BASIS_4, 1, 2);
+    idct_2d_impulse::<4, 4, 16>(&BASIS_4, &BASIS_4, 2, 3);
+    idct_2d_impulse::<4, 4, 16>(&BASIS_4, &BASIS_4, 3, 1);
+    idct_2d_impulse::<4, 4, 16>(&BASIS_4, &BASIS_4, 3, 3);
+    idct_2d_impulse::<4, 4, 16>(&BASIS_4, &BASIS_4, 2, 0);
+    kani::cover!(true, "all impulses executed");
+}
+
+// @prop C16
+// @tier thorough
+// @unit jxl_render::vardct::generic::dct::dct_2d for rectangular 8x4 and 4x8 blocks
+// @sym as the 4x4 harness; positions chosen so that a swapped width/height or a missing transposition changes the result
+// @bound 8x4 and 4x8, impulse inputs
+// @oblig output(y, x) = amplitude * B_H[ky][y] * B_W[kx][x]
+// @outside as the 4x4 harness
+#[kani::proof]
+#[kani::unwind(10)]
+pub fn c16_idct_rectangular_impulse_responses() {
+    idct_2d_impulse::<8, 4, 32>(&BASIS_8, &BASIS_4, 0, 5);
+    idct_2d_impulse::<8, 4, 32>(&BASIS_8, &BASIS_4, 3, 0);
+    idct_2d_impulse::<8, 4, 32>(&BASIS_8, &BASIS_4, 2, 7);
+    idct_2d_impulse::<4, 8, 32>(&BASIS_4, &BASIS_8, 5, 0);
+    idct_2d_impulse::<4, 8, 32>(&BASIS_4, &BASIS_8, 0, 3);
+    idct_2d_impulse::<4, 8, 32>(&BASIS_4, &BASIS_8, 7, 2);
+    kani::cover!(true, "all impulses executed");
+}
